@@ -316,6 +316,33 @@ def main(argv):
                 seq.append(cand)
         histories.append((phys, seq, False))
     stats["random"] = nrand
+    # re-definition family: a property is added AGAIN under a name that exists (a parameter sweep re-stating a material); no
+    # delete / rename in these histories, so "the property that carries the name last assigned" is decided by names alone:
+    # the saved index of every entity has to designate a property of exactly the name last assigned to it
+    ndup = 90 if ck.tier == "quick" else 900
+    for t in range(ndup):
+        phys = "ehm"[t % 3]
+        ents = [("node", i) for i in range(5)] + [("seg", i) for i in range(3)] + [("arc", 0), ("label", 0)]
+        if phys == "h":
+            ents.remove(("arc", 0))
+        seq = []
+        have = {k: [] for k in range(4)}
+        for kd in KINDS:
+            for n in rng.sample(NAMES, rng.randint(2, 3)):
+                seq.append(("add", kd, n))
+                have[KINDS.index(kd)].append(n)
+        def assigns(cnt):
+            for _ in range(cnt):
+                ent = rng.choice(ents)
+                k, fld = rng.choice(ref_fields(phys, ent))
+                seq.append(("assign", ent, fld, rng.choice(have[k] + [None])))
+        assigns(rng.randint(4, 10))
+        for _ in range(rng.randint(1, 3)):
+            k = rng.randrange(4)
+            seq.append(("add", KINDS[k], rng.choice(have[k][:-1] if rng.random() < 0.7 else have[k])))   # mostly NOT the last one defined
+            assigns(rng.randint(0, 3))
+        histories.append((phys, seq, "dup"))
+    stats["redefinition"] = ndup
     try:
         batch = 400
         for b0 in range(0, len(histories), batch):
@@ -366,6 +393,30 @@ def main(argv):
                                  dict(physics=phys, ops=ops))
                     continue
                 layout = slots_of(phys)
+                if exh == "dup":
+                    cur = {}
+                    for op in ops:
+                        if op[0] == "assign":
+                            cur[(op[1], op[2])] = op[3]
+                    bad = None
+                    for k in range(4):
+                        for ent in layout[k]:
+                            if ent[0] == "label" and not sv["labels"] and k == 3:
+                                continue
+                            fld = [f for (kk, f) in ref_fields(phys, ent) if kk == k]
+                            want = cur.get((ent, fld[0])) if fld and any(o[0] == "assign" and o[1] == ent for o in ops) else None
+                            idx = saved_index(sv, phys, k, ent)
+                            got = None if idx == 0 else (sv[KINDS[k]][idx - 1] if 0 < idx <= len(sv[KINDS[k]]) else "<index %d out of range>" % idx)
+                            if got != want:
+                                bad = "%s %d: the saved file designates the %s property %r, the script last assigned %r (saved properties: %r)" % (
+                                    ent[0], ent[1], KINDS[k], got, want, sv[KINDS[k]])
+                                break
+                        if bad:
+                            break
+                    if bad:
+                        ck.violation("refs:retargeted:redefinition", "after the history %s: %s" % ([list(map(str, o)) for o in ops][:30], bad),
+                                     dict(physics=phys, ops=[list(map(str, o)) for o in ops], what=bad, lua=lua_history(phys, ops, "out" + EXT[phys])))
+                    continue
                 # --- stage P: identity oracle
                 ref = Reference(phys)
                 for op in ops:
